@@ -98,7 +98,7 @@ fn any_host(r: &mut Rng, psl: &Option<Psl>) -> String {
     match r.below(24) {
         0 => plain_host(r, psl).to_uppercase(),
         1 => r.pick(&["b\u{fc}cher.example", "\u{43f}\u{440}\u{438}\u{43c}\u{435}\u{440}.\u{440}\u{444}", "\u{4f8b}\u{3048}.jp", "B\u{dc}CHER.example", "xn--bcher-kva.example", "www.b\u{fc}cher.co.uk", "a.\u{516c}\u{53f8}.cn", "fa\u{df}.de", "\u{130}.com", "a\u{200d}b.com", "a\u{ad}b.com", "xn--a.com", "xn--.com", "\u{fffd}.com", "a\u{3002}b.com", "\u{ff41}.com", "a.b\u{301}.com"]).to_string(),
-        2 => r.pick(&["127.0.0.1", "1.2.3.4", "5.6.3.4", "0x7f.1", "192.168.1.1", "1.2.3", "256.1.1.1", "1.2.3.4.5", "0.0.0.0"]).to_string(),
+        2 => r.pick(&["127.0.0.1", "1.2.3.4", "5.6.3.4", "10.20.0.1", "192.168.0.1", "10.0.0.1", "0x7f.1", "192.168.1.1", "1.2.3", "256.1.1.1", "1.2.3.4.5", "0.0.0.0"]).to_string(),
         3 => r.pick(&["[::1]", "[2001:db8::1]", "[::ffff:1.2.3.4]", "[::1", "::1]", "[]", "[a:b]", "[::1]x", "[:"]).to_string(),
         4 => format!("{}.", plain_host(r, psl)),
         5 => r.pick(&["", ".", "..", "a..b", ".a.com", "a.com..", "-a.com", "a-.com", "a_b.com", "a b.com", "a%41.com", "%41.com", "a,b.com", "a*b.com", "a|b.com", "a^b.com", "a<b>.com", "a\u{0}b.com", "a\u{7f}.com", "a\u{1}.com", "a\u{a0}b.com"]).to_string(),
@@ -180,6 +180,11 @@ fn host_component(url: &str, special: bool) -> Option<String> {
         }
     }
     Some(hostport[..cut].to_string())
+}
+
+fn is_ipv4(h: &str) -> bool {
+    let parts: Vec<&str> = h.split('.').collect();
+    parts.len() == 4 && parts.iter().all(|p| !p.is_empty() && p.len() <= 3 && p.chars().all(|c| c.is_ascii_digit()) && p.parse::<u32>().map(|v| v <= 255).unwrap_or(false))
 }
 
 fn is_tame_host(h: &str) -> bool {
@@ -305,6 +310,21 @@ pub fn run(seed: u64, n: usize, out: &mut Out) {
                             out.fail("party-differs-from-reference", None, json!({"case": desc, "host": hostname, "source_host": sh, "reference_third_party": third_ref}));
                         }
                         out.bump(if third_ref { "party:third" } else { "party:first" });
+                    }
+                }
+                // an IPv4 literal has no registrable domain short of itself: two different addresses are
+                // third-party to each other, whatever octets they share
+                for (h, d) in [(hostname, domain)].into_iter().chain(parsed_src.iter().map(|(a, b)| (a, b))) {
+                    if is_ipv4(h) {
+                        if h != d {
+                            out.fail("ip-literal-has-a-shorter-registrable-domain", None, json!({"host": h, "impl_domain": d}));
+                        }
+                        out.bump("ipv4_domain_checks");
+                    }
+                }
+                if let Some((sh, _)) = &parsed_src {
+                    if is_ipv4(hostname) && is_ipv4(sh) && (hostname != sh) != q.is_third_party {
+                        out.fail("party-differs-between-ip-literals", None, json!({"case": desc, "host": hostname, "source_host": sh, "is_third_party": q.is_third_party}));
                     }
                 }
                 // domains are label-aligned suffixes of their hosts
